@@ -79,11 +79,13 @@ Lemma counts_ok_b_sound s : counts_ok_b s = true -> counts_ok s.
 Proof. unfold counts_ok_b, counts_ok. rewrite !andb_true_iff, !Nat.eqb_eq. tauto. Qed.
 
 (* the quantifier of C01: live entities reference live, in-range sub-entities; no halfface in two live cells; no face lists a
-   halfedge (or a halfedge and its opposite) twice *)
+   halfedge (or a halfedge and its opposite) twice; every live cell is a closed surface (what add_cell's topology check accepts):
+   on cells that are not closed the re-ordering of halffaces around an edge can corrupt the list (KNOWN_FINDINGS
+   nonmanifold-cells-reorder, Kernel2/ReorderExact.v reorder_permutation_refuted) *)
 Definition valid_b (s : mesh) : bool :=
   forallb (fun e => let '(a, b) := edge_at s e in live_v s a && live_v s b) (live_edges s) &&
   forallb (fun f => forallb (fun h => live_e s (h / 2)) (face_at s f) && nodup_b (face_at s f ++ map opp (face_at s f))) (live_faces s) &&
-  forallb (fun c => forallb (fun hf => live_f s (hf / 2)) (cell_at s c)) (live_cells s) &&
+  forallb (fun c => forallb (fun hf => live_f s (hf / 2)) (cell_at s c) && cell_check s (cell_at s c)) (live_cells s) &&
   nodup_b (concat (map (cell_at s) (live_cells s))).
 
 (* all invariants at once: [] when they hold, else the names of those that fail *)
